@@ -4,6 +4,7 @@ import (
 	"fmt"
 	"go/token"
 	"sort"
+	"strings"
 
 	"golang.org/x/tools/go/ssa"
 
@@ -55,6 +56,15 @@ func runC19(c *core.Ctx) {
 				}
 			}
 			for _, ci := range core.Calls(f) {
+				// a package-level variable handed by reference to a function outside the module (sync.Map.Store,
+				// atomic.Add..., (*bytes.Buffer).Write ...): state is kept across calls unless the callee is known read-only
+				if o := core.CalleeObj(ci); o != nil && o.Pkg() != nil && !strings.HasPrefix(o.Pkg().Path(), core.ModPath) {
+					for _, a := range ci.Common().Args {
+						if g, ok := rootOf(core.Strip(a)).(*ssa.Global); ok && p.InModuleGlobal(g) && !externalReadOnly[o.Name()] {
+							report(g, ci.Pos(), "call "+o.FullName())
+						}
+					}
+				}
 				cal := ci.Common().StaticCallee()
 				if cal == nil || wtp[cal] == nil {
 					continue
@@ -131,6 +141,77 @@ func runC19(c *core.Ctx) {
 		}
 	}
 
+	c.Rule("C19.freshslot", "every container assembler of bindnode hands each new entry its own Go value: the reflect.Value placed in the child assembler's val field by AssembleValue / AssembleKey is the result of a reflect call made in that activation (reflect.New(..).Elem(), Index, FieldByIndex, Elem ...), never a value kept in the assembler between entries", 6)
+	for _, fn := range p.ModFns {
+		pk := core.FuncPkg(fn)
+		if pk == nil || core.RelPkg(pk.Path()) != "node/bindnode" || len(fn.Blocks) == 0 || fn.Synthetic != "" {
+			continue
+		}
+		if fn.Name() != "AssembleValue" && fn.Name() != "AssembleKey" {
+			continue
+		}
+		n := 0
+		core.Instrs(fn, func(in ssa.Instruction) {
+			st, ok := in.(*ssa.Store)
+			if !ok {
+				return
+			}
+			fa, ok := st.Addr.(*ssa.FieldAddr)
+			if !ok || core.FieldName(fa) != "_assembler.val" {
+				return
+			}
+			n++
+			good := true
+			var check func(v ssa.Value, depth int)
+			check = func(v ssa.Value, depth int) {
+				switch x := v.(type) {
+				case *ssa.Call:
+					if o := core.CalleeObj(x); o == nil || o.Pkg() == nil || o.Pkg().Path() != "reflect" {
+						good = false
+					}
+				case *ssa.Phi:
+					if depth > 4 {
+						good = false
+						return
+					}
+					for _, e := range x.Edges {
+						check(e, depth+1)
+					}
+				case *ssa.UnOp:
+					// a local variable of this activation (possibly captured by the finish closure): look at what it was assigned
+					if al, ok := x.X.(*ssa.Alloc); ok && al.Parent() == fn && depth <= 4 {
+						found := 0
+						for _, g := range core.WithClosures(fn) {
+							core.Instrs(g, func(in2 ssa.Instruction) {
+								if s2, ok := in2.(*ssa.Store); ok {
+									root := s2.Addr
+									if fv, isFV := root.(*ssa.FreeVar); isFV {
+										if b := boundAlloc(fv); b != nil {
+											root = b
+										}
+									}
+									if root == ssa.Value(al) {
+										found++
+										check(s2.Val, depth+1)
+									}
+								}
+							})
+						}
+						if found == 0 {
+							good = false
+						}
+						return
+					}
+					good = false
+				default:
+					good = false // a load from the assembler, a parameter, ...
+				}
+			}
+			check(st.Val, 0)
+			c.Check(good, fmt.Sprintf("%s#slot%d", core.FuncKey(fn), n), p.Pos(st.Pos()), "entry slot computed afresh by a reflect call", "the Go value handed to the child assembler is not computed by a reflect call in this activation (it is kept in the assembler across entries): data assembled into one entry leaks into the next")
+		})
+	}
+
 	c.Rule("C19.unwrap", "Unwrap returns Addr().Interface() of the reflect.Value held in the node (field val of _node / _nodeRepr), never of a copy", 1)
 	if fn := p.Func("node/bindnode", "", "Unwrap"); fn != nil {
 		for _, ret := range core.Returns(fn) {
@@ -166,6 +247,13 @@ func runC19(c *core.Ctx) {
 	} else {
 		c.Undecided("node/bindnode.Unwrap", "-", "not found")
 	}
+}
+
+// externalReadOnly: methods/functions of packages outside the module that do
+// not change the state of an object passed by reference.
+var externalReadOnly = map[string]bool{
+	"Load": true, "Range": true, "Lock": true, "Unlock": true, "RLock": true, "RUnlock": true,
+	"String": true, "Len": true, "Error": true, "EncodeToString": true, "DecodeString": true, "Bytes": true,
 }
 
 // sameValueShallow: identical SSA value, or the same conversion applied to identical operands.
